@@ -26,7 +26,7 @@ INFO = {
     'assumptions': ['ideal hash / signature model: injective, unforgeable (symex/crypto.py)'],
 }
 MANDATORY = {'cover_data': ['signed-portion-is-the-specified-range'], 'cover_interest': ['signed-portion-is-the-specified-range'],
-             'tamper': ['tampering-detected']}
+             'tamper': ['tampering-detected'], 'sigzero': ['tampering-detected']}
 
 
 def run_sync(coro):
@@ -277,6 +277,51 @@ def _mutations(eng, w, sp, case):
     return [w[0]] + ln + body
 
 
+def h_sigzero(eng, case):
+    """a signature value that begins with a zero octet (about one packet in 256), with that octet removed and every
+    enclosing length corrected: another signature value, must not verify"""
+    import ndn.encoding as enc
+    kind = case['signer']
+    F = _Fixed(eng)
+    env.symbolic_env(F)
+    signer = env.make_signer(F, kind, rmin=72)
+    found = None
+    for n in range(6000):
+        wire = bytes(enc.make_data('/z/%d' % n, enc.MetaInfo(freshness_period=n), b'payload', signer))
+        rv = ref.parse_data(list(wire))
+        st, vs, ve = rv['#region']['sigvalue']
+        if wire[vs] == 0:
+            found = (wire, rv, st, vs, ve)
+            break
+    if found is None:
+        eng.reach('no-packet-with-leading-zero-found')
+        return
+    wire, rv, st, vs, ve = found
+    body_start = rv['#outer'].vs
+    inner = list(wire[body_start:st]) + mg_tlv(0x17, list(wire[vs + 1:ve])) + list(wire[ve:])
+    w2 = bytes(mg_tlv(6, inner))
+    try:
+        n2, m2, c2, sig = enc.parse_data(w2)
+    except Exception:
+        eng.check(True, 'tampering-detected')
+        eng.reach('end')
+        return
+    try:
+        acc = verifier_accepts(kind, n2, sig)
+    except Exception as e:
+        eng.fail('verifier-no-exception', exc_sig(e), repr(e)[:120])
+        return
+    eng.check(Not(acc), 'tampering-detected', {'signature_octets': ve - vs - 1},
+              sig='modified-packet-accepted:%s:leading-zero-octet-of-the-signature-removed' % kind)
+    eng.observe('acc', bool(acc))
+    eng.reach('end')
+
+
+def mg_tlv(t, val):
+    from . import modelgen
+    return modelgen.w_tlv(t, val)
+
+
 def h_tamper(eng, case):
     import ndn.encoding as enc
     from ndn.security.validator import digest_validator as dv
@@ -358,7 +403,7 @@ def h_tamper(eng, case):
     eng.reach('end')
 
 
-HARNESSES = {'cover_data': h_cover, 'cover_interest': h_cover, 'tamper': h_tamper}
+HARNESSES = {'sigzero': h_sigzero, 'cover_data': h_cover, 'cover_interest': h_cover, 'tamper': h_tamper}
 KINDS = ['digest', 'hmac', 'rsa', 'ecdsa', 'ed25519']
 
 
@@ -375,6 +420,8 @@ def cases(tier, seed):
                                                   'digest_pos': dp, 'rmin': 32 if (payload == 2 and dp is None) else 68,
                                                   'fh': dp == 0},
                                {'weight': 10}))
+    for kind in ('rsa', 'ed25519', 'hmac'):
+        cs.append(('sigzero', {'signer': kind}, {'weight': 20}))
     # a signer object that has signed before (same kind of packet, the other kind, several)
     for kind in KINDS:
         for n in (1, 2):
